@@ -14,11 +14,10 @@
 (*                                                                         *)
 (* For each move  Flow(t) = sum_s W1(s) K(s,t)  must equal W1(t).          *)
 (***************************************************************************)
-EXTENDS Tables, Fp, Rat, Json
+EXTENDS Tables, Fp, Rat, Json, MoveRel      \* MoveRel: the candidate sets (OutlierOn, SkipLoneOutlier are its constants)
 
-CONSTANTS N, OutlierOn,
+CONSTANTS N,
           Move,                 \* "dp" | "prg" | "sub"
-          SkipLoneOutlier,      \* FALSE as specified; TRUE = a lone outlier is never moved (deviation F5)
           RegraftDegreeFactor,  \* FALSE as specified; TRUE = attachment weight multiplied by (#children of target + 1) (deviation F6)
           DumpRows,             \* print the single-step rows of every forest as exact rationals (conformance oracle)
           AllOutlierWhole       \* TRUE: on a tree whose data are all outliers the subtree move resamples the whole tree;
@@ -26,53 +25,29 @@ CONSTANTS N, OutlierOn,
 Data == 0..(N - 1)
 All == AllOn(Data, OutlierOn)
 
-\* ---------------------------------------------------------------- data-point move
-RemoveD(F, d) == {c \ {d} : c \in F}
-DPCands(st, d) ==
-  IF d \in st.o
-  THEN IF (SkipLoneOutlier /\ Cardinality(st.o) <= 1) THEN {st}
-       ELSE {[f |-> AddTo(st.f, b, d), o |-> st.o \ {d}] : b \in st.f} \cup {st}
-  ELSE LET a == NodeOf(st.f, d) IN
-       IF Cardinality(Own(st.f, a)) <= 1 THEN {st}
-       ELSE LET F0 == RemoveD(st.f, d) IN
-            {[f |-> AddTo(F0, b \ {d}, d), o |-> st.o] : b \in st.f}
-            \cup (IF OutlierOn THEN {[f |-> F0, o |-> st.o \cup {d}]} ELSE {})
+\* ---------------------------------------------------------------- data-point move (candidates: MoveRel!DPCands)
 DPZ(st, d) == FSum(DPCands(st, d), W1)
 \* K_d(s, t) = W1(t) / Z_d(s) for t in the candidate set
 DPClosed == \A s \in All : \A d \in Data : DPCands(s, d) \subseteq All
 
-\* ---------------------------------------------------------------- prune / regraft
-\* subtree of clone v = the clades inside v; remainder = the other clades with v's data removed from the ancestors
-SubF(F, v) == {c \in F : c \subseteq v}
-RestF(F, v) == {c \ v : c \in F \ SubF(F, v)}
-\* regraft under clone p of the remainder (p = {} : top level)
-Graft(R, S, v, p) == {IF p # {} /\ p \subseteq c THEN c \cup v ELSE c : c \in R} \cup S
-PRGTargets(st, v) == LET R == RestF(st.f, v) IN R \cup {{}}
+\* ---------------------------------------------------------------- prune / regraft (relation: MoveRel!PRGResults)
 PRGCands(st, v) == LET R == RestF(st.f, v)  S == SubF(st.f, v)
                    IN {[x |-> [f |-> Graft(R, S, v, p), o |-> st.o],
                         deg |-> Cardinality(IF p = {} THEN Roots(R) ELSE KidsOf(R, p))] : p \in PRGTargets(st, v)}
 PRGWeight(e) == IF RegraftDegreeFactor THEN FMul(e.deg + 1, W1(e.x)) ELSE W1(e.x) % P
 \* (the code returns the tree unchanged when it has <= 1 clone or when nothing remains after pruning: see PRGRowF)
 PRGClosed == \A s \in All : \A v \in s.f : \A e \in PRGCands(s, v) : e.x \in All
+PRGSameRelation == \A s \in All : \A v \in s.f : {e.x : e \in PRGCands(s, v)} = PRGResults(s, v)
 
 \* ---------------------------------------------------------------- subtree resampling, ideal inner sampler
-\* block chosen through a uniformly chosen non-outlier data point d: c = clone of d, block root = parent of c
-\* (virtual root if c is top level: whole tree).  Outliers are handed to the block.
-NonOut(st) == UNION st.f
-SubBlock(st, d) ==
-  LET c == NodeOf(st.f, d) IN
-  IF ~HasParent(st.f, c) THEN [whole |-> TRUE, v |-> {}, at |-> {}]
-  ELSE LET p == ParentOf(st.f, c) IN
-       [whole |-> FALSE, v |-> p, at |-> IF HasParent(st.f, p) THEN ParentOf(st.f, p) \ p ELSE {}]
 \* all ways of re-building the block's data (clade v plus outliers) and attaching it under `at` of the remainder
 SubCands(st, d) ==
   LET b == SubBlock(st, d) IN
   IF b.whole THEN All
-  ELSE LET R == RestF(st.f, b.v)
-           B == b.v \cup st.o
-       IN {[f |-> {IF b.at # {} /\ b.at \subseteq c THEN c \cup UNION sub.f ELSE c : c \in R} \cup sub.f, o |-> sub.o]
-             : sub \in AllOn(B, OutlierOn)}
+  ELSE {Reattach(st, b, sub) : sub \in AllOn(b.v \cup st.o, OutlierOn)}
 SubClosed == \A s \in All : \A d \in NonOut(s) : SubCands(s, d) \subseteq All
+\* the enumeration-free membership test used by trace validation is the same relation
+SubSameRelation == \A s \in All : \A d \in NonOut(s) : \A t \in All : (t \in SubCands(s, d)) = SubStepVia(s, t, d)
 
 \* ---------------------------------------------------------------- rows as functions, built by folding over candidates only
 ZeroF == [t \in All |-> 0]
@@ -132,4 +107,5 @@ MovesDefined == \A s \in All :
 DefinedInv == (todo = All /\ ~cur.has) => MovesDefined
 Closed == CASE Move = "dp" -> DPClosed [] Move = "prg" -> PRGClosed [] Move = "sub" -> SubClosed
 ClosedInv == (todo = All /\ ~cur.has) => Closed
+SameRelationInv == (todo = All /\ ~cur.has) => (PRGSameRelation /\ SubSameRelation)
 =============================================================================
